@@ -64,9 +64,9 @@ BOUNDS = {
         "split_max": 3,
         # Part B: (nCycles, burnSteps) shapes of the fault-free family / of the base fault enumeration /
         # the shape on which every write-path deviation also gets its fault enumeration
-        "shapes_free": [(1, 0), (1, 1), (1, 2), (2, 1), (3, 1)],
-        "shapes_free_base": [(2, 2)],  # only the members without deviation (keeps quick within budget)
-        "shapes_enum": [(1, 0), (1, 1), (1, 2), (2, 1)],
+        "shapes_free": [(1, 0), (1, 2), (2, 1), (3, 1)],
+        "shapes_free_base": [(1, 1), (2, 2)],  # only the members without deviation (keeps quick within budget)
+        "shapes_enum": [(1, 0), (1, 2), (2, 1)],
         "enum_all_on": [],
         "enum_deviations_on": (2, 1),
     },
